@@ -187,7 +187,7 @@ def run_case(ck, paths, idx):
 def run(ck, tier):
     paths = build("asan")
     sc = getattr(ck, "scale", 1.0)
-    n = int((400 if tier == "quick" else 20000) * sc)
+    n = int((400 if tier == "quick" else 8000) * sc)
     common.pmap(lambda i: run_case(ck, paths, i), range(n), workers=14)
     ck.rule = ("compositions drawn to satisfy one premise: (1) arbitrary mixtures / single letters of A,C,G,T,U,N in either case; (2) protein-only letter fraction 0.25..1 with "
                "the remainder from common letters, U and B/J/O/X/Z in all proportions; 2..200 sequences of 1..2000 residues; each presented as plain FASTA, as a gapped / "
